@@ -62,10 +62,16 @@ def run(chk, prog):
     r = ev.eval_fn(lm, m)
     hmm = mk_proj(r.ret, 0)
     where = chk.where(m, lm)
-    okh = is_call(hmm, "HiddenMarkovModel") and len(hmm[2]) >= 4
-    chk.require(okh, "SIBLING-DENSITY", "latent_marginals/hmm", "tfd.HiddenMarkovModel(initial, transition, observation, num_steps)", derived=show(hmm)[:200], expected="4 positional arguments", where=where)
+    # positional or by TFP's parameter names
+    HMM_PARAMS = ("initial_distribution", "transition_distribution", "observation_distribution", "num_steps")
+    hargs = None
+    if is_call(hmm, "HiddenMarkovModel"):
+        kw_ = dict(hmm[3])
+        hargs = [hmm[2][i] if i < len(hmm[2]) else kw_.get(n_) for i, n_ in enumerate(HMM_PARAMS)]
+    okh = hargs is not None and all(x is not None for x in hargs)
+    chk.require(okh, "SIBLING-DENSITY", "latent_marginals/hmm", "tfd.HiddenMarkovModel(initial, transition, observation, num_steps)", derived=show(hmm)[:200], expected="initial, transition, observation distributions and num_steps", where=where)
     if okh:
-        init_d, trans_d, obs_d, steps = hmm[2][:4]
+        init_d, trans_d, obs_d, steps = hargs
         lg = lambda d: dict(d[3]).get("logits") if is_call(d, "Categorical") else None
         chk.require(lg(trans_d) == TT, "SIBLING-DENSITY", "latent_marginals/transition", "transition logits", derived=show(lg(trans_d))[:120], expected="config.transition_tensor()", where=where)
         chk.require(lg(obs_d) == OT, "SIBLING-DENSITY", "latent_marginals/observation", "observation logits", derived=show(lg(obs_d))[:120], expected="config.observation_tensor()", where=where)
@@ -157,17 +163,31 @@ def run(chk, prog):
     ffbs_rules(chk, prog, m, ff)
 
 
-def _strip_phi(t, idx_term):
-    """(first_arm, later_arm) of a two-way choice on `idx_term == 0` (either polarity); None when t is not such a choice"""
-    if not is_t(t, "phi"):
+def _colsel(t):
+    """array algebra of a column selection: (A + B)[:, o] is A[:, o] + B[:, o]; a column vector x.reshape(-1, 1) broadcast and selected is x.
+    Applied bottom-up, so `(obs_n + alpha.reshape(-1, 1))[:, y]` and `obs_n[:, y] + alpha` are one term."""
+    if not isinstance(t, tuple):
+        return t
+    t = tuple(_colsel(x) for x in t)
+    ALL = ("sliceobj", C(None), C(None), C(None))
+    if is_t(t, "index") and is_t(t[2], "tuple") and len(t[2][1]) == 2 and t[2][1][0] == ALL:
+        base = t[1]
+        if is_t(base, "bin") and base[1] in ("+", "-"):
+            return ("bin", base[1], _colsel(("index", base[2], t[2])), _colsel(("index", base[3], t[2])))
+        if is_mcall(base, "reshape") and base[2] == (C(-1), C(1)):
+            return base[1][1]
+    return t
+
+
+def _strip_phi(t, idx_term, algebra=False):
+    """(first_arm, later_arm): t under `idx_term == 0` true / false - wherever the choice on that test sits in t (the whole value, or one summand) - with the
+    column-selection algebra applied; None when t does not depend on that test"""
+    from ..terms import mk_cmp, renorm, resolve
+    test = mk_cmp("==", idx_term, C(0))
+    if not any(is_t(x, "phi") and x[1] == test for x in subterms(t)):
         return None
-    test = t[1]
-    if is_t(test, "cmp") and test[2] == idx_term and test[3] == C(0):
-        if test[1] == "==":
-            return t[2], t[3]
-        if test[1] == "!=":
-            return t[3], t[2]
-    return None
+    a, b = renorm(resolve(t, test, True)), renorm(resolve(t, test, False))
+    return (_colsel(a), _colsel(b)) if algebra else (a, b)
 
 
 def ffbs_rules(chk, prog, m, ff):
@@ -207,21 +227,24 @@ def ffbs_rules(chk, prog, m, ff):
     alpha = y[1][0]
     req(lin(co[1][0]) == {frozenset([idx]): 1, frozenset(): 1}, "forward/index", "step counter", co[1][0], "index + 1")
     req(co[1][1] == alpha, "forward/carry", "the carried alpha is this step's alpha", co[1][1], "alpha (the same term that is emitted)")
-    req(lin(y[1][1]) == {frozenset([alpha]): 1, frozenset([("call", ("global", "jax.scipy.special.logsumexp"), (alpha,), ())]): -1}, "forward/filter", "the emitted filter is the normalised alpha", show_lin(lin(y[1][1]))[:300], "alpha - logsumexp(alpha)")
-    arms = _strip_phi(alpha, idx)
+    want_f = dict(lin(alpha))
+    want_f[frozenset([("call", ("global", "jax.scipy.special.logsumexp"), (alpha,), ())])] = -1
+    req(lin(y[1][1]) == want_f, "forward/filter", "the emitted filter is the normalised alpha", show_lin(lin(y[1][1]))[:300], "alpha - logsumexp(alpha)")
+    arms = _strip_phi(alpha, idx, algebra=True)
     req(arms is not None, "forward/branch", "alpha chooses the initial branch exactly at index 0", alpha, "cond(index == 0, init_branch, t_branch, prev, obs)")
     if arms is not None:
         sel = ("tuple", (("sliceobj", C(None), C(None), C(None)), ("elem", OBS)))
         col = lambda v: ("call", ("attr", v, "reshape"), (C(-1), C(1)), ())
         a0, a1 = arms
-        req(is_t(a0, "index") and line_of(a0[2], ("elem", OBS)) and lin(a0[1]) == {frozenset([obn]): 1, frozenset([col(prev)]): 1}, "forward/init-branch", "alpha_1", a0, "(obs_n + prior.reshape(-1, 1))[:, y_1]")
-        ok1 = is_t(a1, "index") and line_of(a1[2], ("elem", OBS))
+        obcol = ("index", obn, sel)  # log p(y_t | x_t = i) for every i
+        req(lin(a0) == {frozenset([obcol]): 1, frozenset([prev]): 1}, "forward/init-branch", "alpha_1", a0, "(obs_n + prior.reshape(-1, 1))[:, y_1]  =  obs_n[:, y_1] + prior")
+        ok1 = True
         if ok1:
-            f1 = lin(a1[1])
-            rest = [mm for mm in f1 if mm != frozenset([obn])]
-            ok1 = f1.get(frozenset([obn])) == 1 and len(rest) == 1 and f1[rest[0]] == 1 and len(rest[0]) == 1
+            f1 = lin(a1)
+            rest = [mm for mm in f1 if mm != frozenset([obcol])]
+            ok1 = f1.get(frozenset([obcol])) == 1 and len(rest) == 1 and f1[rest[0]] == 1 and len(rest[0]) == 1
             if ok1:
-                t_ = next(iter(rest[0]))
+                t_ = ("call", ("attr", next(iter(rest[0])), "reshape"), (C(-1), C(1)), ())  # (the reshape is dropped by the algebra; re-wrapped for the test below)
                 tr_T = lambda x: x in (("attr", trn, "T"), ("call", ("attr", trn, "transpose"), (), ()), ("call", ("global", "jax.numpy.transpose"), (trn,), ()))
                 ax, inner_ = dict(t_[1][1][3]).get("axis") if is_call(t_[1][1], "logsumexp") else None, lin(t_[1][1][2][0]) if is_call(t_[1][1], "logsumexp") and t_[1][1][2] else {}
                 summed_over_prev = (ax == C(0) and inner_ == {frozenset([col(prev)]): 1, frozenset([trn]): 1}) or \
